@@ -838,7 +838,17 @@ def reindex_(
     if array.shape[axis] == 0:
         # all groups were NaN
         shape = array.shape[:-1] + (len(to),)
-        if array_type in (ReindexArrayType.AUTO, ReindexArrayType.NUMPY):
+        if is_duck_dask_array(array):
+            # stay lazy
+            import dask.array
+
+            reindexed = dask.array.full(
+                shape,
+                np.nan if fill_value is None else fill_value,
+                dtype=array.dtype,
+                chunks=array.chunks[:-1] + ((len(to),),),
+            )
+        elif array_type in (ReindexArrayType.AUTO, ReindexArrayType.NUMPY):
             reindexed = np.full(shape, fill_value, dtype=array.dtype)
         else:
             raise NotImplementedError
